@@ -154,7 +154,7 @@ func c13Branches(w *World, r *Report) {
 				}
 				passes := false
 				if okDef {
-					ex, _ := g.PathExists(entryPos(fn), posOf(rp.Ret), avoidInstrs(ins...))
+					ex, _ := g.PathExists(entryPos(fn), retPos(rp), avoidInstrs(ins...))
 					passes = !ex
 				}
 				r.Check(isOverlay(v) && okDef && passes, "C13/BRANCHES", key, w.InstrPos(rp.Ret), "reuse-values returns CoalesceTables(new, deployed.Config) and, on every path, restores the chart defaults in force at the deployed revision", "with reuse-values the result is not new-over-deployed, or some path returns without restoring the deployed revision's chart defaults")
